@@ -452,6 +452,8 @@ func runC15(r *Run) {
 		or.ViolationPath(efn, instrPos(site), "lock cycle "+strings.Join(cyc, " -> "), "two goroutines taking these locks in opposite order deadlock", strings.Join(w, "; "))
 	}
 	or.Done()
+	// Start does not report success for a transaction it has itself rolled back: a Do on it would wait forever (shared with C10)
+	r.Borrow("C10", map[string]string{"C10.rollback": "C15.rollback"})
 }
 
 func lockClassOfHeld(li *LockInfo, obj string) string {
